@@ -868,6 +868,44 @@ Section BindProofs.
       + now rewrite (contig_none ev k i Hc Hge).
   Qed.
 
+  (* `arguments` only ever holds parameter names and `$i` keys, whatever the call *)
+  Lemma arguments_no_other_key ps rs ev a c z :
+    bind ps rs ev = Bound a c -> plain z = true -> ~ In z (map p_name ps) -> aget z a = None.
+  Proof.
+    intros Hb Hz Hnot. unfold Bind.bind, bind_in, create_flow_instance in Hb.
+    destruct (cfi_named ps ev [] []) as [args0 c0] eqn:E.
+    destruct (start_flow (cfi_pos ps 0 ev args0) ev (cfi_ret rs c0)); [|discriminate].
+    injection Hb as <- _.
+    rewrite cfi_pos_other; auto.
+    - destruct (cfi_named_other ps ev [] [] z Hnot) as [H _]. rewrite E in H. exact H.
+    - intros j. now apply plain_ne_pos_key.
+  Qed.
+
+  (* When the FlowStarted match carries only flow_id and flow_instance_uid, EVERY call that
+     binds (well-formed or not, whatever happens to globals in between) is echoed by the
+     callee's FlowStarted event: the caller is never left waiting for the start *)
+  Theorem started_uid_only_echoed : forall ps rs ev a c R evargs_at_match,
+    wf_signature expr ps rs = true ->
+    bind ps rs ev = Bound a c ->
+    forall k v, aget k (started_pattern false R evargs_at_match) = Some v ->
+                aget k (started_args (r_instance_uid R) (r_flow_id R) a) = Some v.
+  Proof.
+    intros ps rs ev a c R pe Hwf Hb k v Hk.
+    destruct (wf_sig_parts ps rs Hwf) as [_ [_ [Hres _]]].
+    assert (Hnot : forall z, In z reserved_keys -> ~ In z (map p_name ps)).
+    { intros z Hz Hin. apply in_map_iff in Hin. destruct Hin as [q [E Hq]]. subst z. now apply (Hres q). }
+    unfold started_pattern in Hk. simpl in Hk.
+    unfold started_args, out_event_args. unfold aupdate at 1. simpl.
+    destruct (String.eqb k "flow_id") eqn:E1.
+    - apply String.eqb_eq in E1. subst k. injection Hk as <-.
+      rewrite aget_aupdate_none; [reflexivity|].
+      apply (arguments_no_other_key ps rs ev a c); auto. apply Hnot. simpl. auto.
+    - destruct (String.eqb k "flow_instance_uid") eqn:E2; [|discriminate].
+      apply String.eqb_eq in E2. subst k. injection Hk as <-.
+      rewrite aget_aupdate_none; [reflexivity|].
+      apply (arguments_no_other_key ps rs ev a c); auto. apply Hnot. simpl. auto.
+  Qed.
+
   (* ---- per-instance contexts ---- *)
   Notation step := (step expr eval).
   Notation run := (run expr eval).
@@ -1137,7 +1175,10 @@ End BindProofs.
 Module Examples.
   Inductive xe := XLit (v : value) | XVar (x : string).
   Definition xeval (c : ctx) (e : xe) : value :=
-    match e with XLit v => v | XVar x => getN x c end.
+    match e with
+    | XLit v => v
+    | XVar x => if ahas (global_key x) c then getN (global_key x) c else getN x c
+    end.
 
   (* flow f $a $b=3 $c=[1] -> $r = "d" *)
   Definition ps : list (param xe) :=
@@ -1230,5 +1271,27 @@ Module Examples.
     eexists. eexists. eexists.
     split; [vm_compute; reflexivity|]. split; [vm_compute; reflexivity|].
     split; [vm_compute; reflexivity|]. repeat split; reflexivity.
+  Qed.
+  (* O5 / known finding: `global $g ; $g = 1 ; $x = await g1($g)` where g1 does
+     `global $g ; $g = 2` before it is started.  The call is well formed and binds a = 1, but a
+     FlowStarted match that carries the call arguments is evaluated when the event arrives:
+     it asks for `$0` = 2 while the event says `$0` = 1. *)
+  Definition call5 : list (arg xe) := [APos (XVar "g")].
+  Definition ops5 : list (op xe) :=
+    [OGlobal xe 0 "g"; OAssign xe 0 "g" (XLit (VInt 1));
+     OStart xe 0 1 gs [] R1 false (parse_args xe call5 0 []);
+     OGlobal xe 1 "g"; OAssign xe 1 "g" (XLit (VInt 2))].
+
+  Example await_hang_witness :
+    wf_signature xe gs [] = true /\ syntactic_call xe call5 = true /\ well_formed_call xe gs call5 = true /\
+    exists st ec2,
+      run xe xeval m_init ops5 = Ok st /\ eval_ctx st 0 = Some ec2 /\
+      aget "a" (ctx_of st 1) = Some (VInt 1) /\
+      aget "$0" (started_pattern true R1 (eval_args xe xeval ec2 (parse_args xe call5 0 []))) = Some (VInt 2) /\
+      aget "$0" (started_args (r_instance_uid R1) (r_flow_id R1) (m_args st 1)) = Some (VInt 1).
+  Proof.
+    split; [reflexivity|]. split; [reflexivity|]. split; [reflexivity|].
+    eexists. eexists. split; [vm_compute; reflexivity|]. split; [vm_compute; reflexivity|].
+    repeat split; reflexivity.
   Qed.
 End Examples.
